@@ -113,4 +113,31 @@ typedef struct {
 /* decode the description record of a special element; returns 0 on success */
 int fc_special_info(fc_file *f, const fc_dd *d, fc_special *s);
 
+#define FC_MAXFIELDS 256
+#define FC_MAXATTRS 64
+typedef struct {
+    int      interlace, ivsize, nfields, version, nattrs;
+    long     nvert;
+    int      type[FC_MAXFIELDS], isize[FC_MAXFIELDS], off[FC_MAXFIELDS], order[FC_MAXFIELDS];
+    char     fname[FC_MAXFIELDS][129];
+    char     name[65], cls[65];
+    uint16_t extag, exref;
+    long     afindex[FC_MAXATTRS];
+    uint16_t atag[FC_MAXATTRS], aref[FC_MAXATTRS];
+} fc_vh;
+int fc_vdata_header(fc_file *f, const fc_dd *d, fc_vh *h);
+
+typedef struct {
+    int       nvelt, version, nattrs;
+    uint16_t *tag, *ref;
+    char     *name, *cls;
+    uint16_t  atag[FC_MAXATTRS], aref[FC_MAXATTRS];
+} fc_vg;
+int  fc_vgroup(fc_file *f, const fc_dd *d, fc_vg *g);
+void fc_vg_free(fc_vg *g);
+
+/* logical bytes of a chunked element (row-major array, fill value where no chunk exists); extents = one per stored chunk,
+ * in chunk-table order */
+uint8_t *fc_chunked_logical(fc_file *f, const fc_dd *d, long *len, int *unsupported, fc_extent *ext, int maxext, int *next);
+
 #endif
